@@ -734,6 +734,10 @@ func (r *writerRun) exec(fault *WFault, outp *[]Ev) (out []Ev) {
 			err = c.SetWriteDeadline(dl)
 			ev["dl"] = dlOr(op.DL)
 			ev["tx"] = r.takeTx()
+		case "XC":
+			// Close() of the connection (allowed at any moment, C11): closes the transport only
+			err = c.Close()
+			ev["tx"] = r.takeTx()
 		case "EC":
 			c.EnableWriteCompression(op.On)
 			ev["on"] = op.On
